@@ -556,20 +556,25 @@ func init() {
 				for i := 0; i < 700; i++ {
 					b.WriteString("if a; then b; fi; ")
 				}
-				big := "{ " + b.String() + "}\n"
-				cmds, _, err := parseAll(big)
-				if err == nil {
-					for _, k := range []int{0, 1, 4095, 4096, 4097, 8192, 10000} {
-						fw := &failingWriter{n: k}
-						var e error
-						var pan interface{}
-						func() {
-							defer func() { pan = recover() }()
-							e = printer.Fprint(fw, cmds[0])
-						}()
-						w.Count("evaluations", 1)
-						if pan != nil || e == nil {
-							w.Violation("writer-fault-ignored", printCase{"{ if a; then b; fi; ×700 }", 0}, fmt.Sprintf("large output, writer failing after %d bytes: err=%v panic=%v", k, e, pan))
+				var b2 strings.Builder
+				for i := 0; i < 700; i++ {
+					b2.WriteString("if a; then b; fi\n")
+				}
+				for _, big := range []string{"{ " + b.String() + "}\n", "{\n" + b2.String() + "}\n", "{\n" + strings.Repeat("cat <<E\nxxxxxxxxxxxxxxxx\nE\n", 400) + "}\n"} {
+					cmds, _, err := parseAll(big)
+					if err == nil {
+						for _, k := range []int{0, 1, 100, 4095, 4096, 4097, 5000, 8191, 8192, 8193, 10000} {
+							fw := &failingWriter{n: k}
+							var e error
+							var pan interface{}
+							func() {
+								defer func() { pan = recover() }()
+								e = printer.Fprint(fw, cmds[0])
+							}()
+							w.Count("evaluations", 1)
+							if pan != nil || e == nil {
+								w.Violation("writer-fault-ignored", printCase{big, 0}, fmt.Sprintf("large output (%d bytes of source, one-line / multi-line / here-documents), writer failing after %d bytes: err=%v panic=%v", len(big), k, e, pan))
+							}
 						}
 					}
 				}
